@@ -12,7 +12,7 @@
 // Differences from DESIGN.md §3.2 (the design is a plan):
 //   - the alphabet has 24 operations (the design's families spelled out per account/key/value)
 //     instead of 14, so the full alphabet is searched to depth 4 (quick) / 6 (thorough) and a
-//     14-operation core sub-alphabet (per property) to depth 6 / 8;
+//     14-operation core sub-alphabet (per property) to depth 6 (quick) / 8 (thorough; C07: 7);
 //   - the oracle's read-back is made non-perturbing (the data-trie cache it fills is put
 //     back), and "load(S)" is an explicit operation, so that histories in which an account
 //     was not read before being removed/re-created are explored too;
@@ -866,6 +866,9 @@ func main() {
 		menu := buildMenu()
 		core := subMenu(menu, coreMenus[c.Prop])
 		depth, coreDepth := c.Pick(4, 6), c.Pick(6, 8)
+		if c.Prop == "C07" {
+			coreDepth = c.Pick(6, 7) // its core alphabet merges fewer states: depth 8 does not fit 15 min on a loaded machine
+		}
 		if *depthFlag > 0 {
 			depth = *depthFlag
 		}
